@@ -446,11 +446,11 @@ class G(object):
             k = self.i(ty[1] + 1)
             return app(self.choice(["BV_ROL", "BV_ROR"]), T(ty, d1), params=(k,))
         if kind == "ext":
-            ws = [w for w in c.bv_widths if w <= ty[1]]
+            ws = [w for w in c.bv_widths if w <= ty[1]] or [ty[1]]
             w0 = self.choice(ws)
             return app(self.choice(["BV_ZEXT", "BV_SEXT"]), T(BV(w0), d1), params=(ty[1] - w0,))
         if kind == "extract":
-            ws = [w for w in c.bv_widths if w >= ty[1]]
+            ws = [w for w in c.bv_widths if w >= ty[1]] or [ty[1]]
             w0 = self.choice(ws)
             s = self.i(w0 - ty[1] + 1)
             return app("BV_EXTRACT", T(BV(w0), d1), params=(s, s + ty[1] - 1))
